@@ -63,6 +63,9 @@ pub enum TEv {
     Busy,
     /// the busy handler completes
     Done,
+    /// the application's publish service stops being ready (its own back-pressure) / is ready again
+    Hold,
+    Unhold,
     /// client: the application starts a streamed QoS 0 publish (6 bytes declared, first 3 sent)
     StreamStart,
     /// ... and delivers the remaining chunk
@@ -109,7 +112,10 @@ pub struct Tm {
     done_at: Option<u32>,
     /// times at which the reading side was possibly paused (a handler was busy)
     busy_from: Option<u32>,
-    busy_spans: Vec<(u32, u32)>,
+    busy_spans: Vec<(u32, u32, bool)>,
+    /// the publish service is held not-ready since (`TEv::Hold`)
+    held_from: Option<u32>,
+    held_once: bool,
     pings_seen: Vec<u32>,
     next_pid: u16,
     frame_seq: u8,
@@ -217,6 +223,8 @@ impl Scenario for Tm {
                 done_at: None,
                 busy_from: None,
                 busy_spans: vec![],
+                held_from: None,
+                held_once: false,
                 pings_seen: vec![],
                 next_pid: 1,
                 frame_seq: 0,
@@ -257,6 +265,8 @@ impl Scenario for Tm {
                 TEv::Rest => self.frame.is_some(),
                 TEv::Busy => self.busy_from.is_none() && self.frame.is_none() && self.carry.is_empty() && self.cfg.kind != Kind::Connect,
                 TEv::Done => !self.conn.gates.waiting().is_empty(),
+                TEv::Hold => self.held_from.is_none() && !self.held_once,
+                TEv::Unhold => self.held_from.is_some(),
                 TEv::StreamStart => self.stream == 0 && self.conn.sink().is_some(),
                 TEv::StreamEnd => self.stream == 1,
                 TEv::SendQ1 => self.sends_started < 2 && self.conn.sink().is_some(),
@@ -348,6 +358,16 @@ impl Scenario for Tm {
                 let p = rf::encode(self.cfg.ep.ver, &rf::publish(1, pid, "t", b"b"));
                 self.deliver(&p, true);
             }
+            TEv::Hold => {
+                self.held_from = Some(self.t);
+                self.held_once = true;
+                crate::world::hold_readiness(true);
+            }
+            TEv::Unhold => {
+                crate::world::hold_readiness(false);
+                let f = self.held_from.take().unwrap();
+                self.busy_spans.push((f, self.t, true));
+            }
             TEv::SendQ1 => {
                 self.sends_started += 1;
                 if let Some(sk) = self.conn.sink() {
@@ -378,7 +398,7 @@ impl Scenario for Tm {
                 let k = self.conn.gates.waiting()[0];
                 self.conn.gates.open(k, GateOutcome::Ok);
                 if let Some(f) = self.busy_from.take() {
-                    self.busy_spans.push((f, self.t));
+                    self.busy_spans.push((f, self.t, false));
                 }
             }
         }
@@ -467,11 +487,15 @@ impl Scenario for Tm {
                         return Err(Violation::new("fast-frame-timed-out", self.wit(&format!("rate {rate}B/{timeout}s")), format!("frame delivered faster than the configured rate in every period was cut after {}s: {}", slots as f32 / 2.0, self.detail())));
                     }
                 }
-                // ---- idle peers are timed out (only judged while nothing paused the reading side: a v3 server
+                // ---- idle peers are timed out (judged while nothing pauses the reading side: a v3 server
                 // with max_receive 1 stops reading, and its timers, while a handler is busy)
+                // ... and there the period starts over when the last busy handler completes and reading resumes)
+                // ... and so does any endpoint while the publish service is not ready
                 let pausing = self.cfg.ep.ver == Ver::V3 && self.cfg.ep.max_receive == 1;
-                if let (true, Some(e), true) = (ka_stop, end, !pausing || !busy_ever) {
-                    let last = self.completes.iter().filter(|c| **c <= e).max().copied().unwrap_or(0);
+                let paused_now = (pausing && (self.busy_from.is_some() || !self.conn.gates.waiting().is_empty())) || self.held_from.is_some();
+                let resumed = self.busy_spans.iter().filter(|s| pausing || s.2).map(|s| s.1).max().unwrap_or(0);
+                if let (true, Some(e), true) = (ka_stop, end, !paused_now) {
+                    let last = self.completes.iter().filter(|c| **c <= e).max().copied().unwrap_or(0).max(resumed.min(e));
                     if e - last > late(t_impl) && self.cfg.kind == Kind::KeepAlive && self.frame.is_none() {
                         return Err(Violation::new(
                             "idle-peer-timed-out-late",
@@ -480,8 +504,8 @@ impl Scenario for Tm {
                         ));
                     }
                 }
-                if end.is_none() && (!busy_ever || !pausing) {
-                    let last = self.completes.iter().max().copied().unwrap_or(0);
+                if end.is_none() && !paused_now {
+                    let last = self.completes.iter().max().copied().unwrap_or(0).max(resumed);
                     let idle = now - last;
                     if ka_on && idle >= late(t_impl) && self.cfg.kind == Kind::KeepAlive {
                         return Err(Violation::new(
@@ -632,6 +656,20 @@ pub fn configs(tier: Tier) -> Vec<TmCfg> {
                 }
             }
         }
+        // the application's publish service is not ready for a while (its own back-pressure): reading and the
+        // timers pause; when it is ready again the keep-alive period starts over, with or without traffic
+        for (k, over) in [(2u16, None), (2, Some(1u16))] {
+            for steady in [None, Some((2 * if over.is_some() { 1 } else { k as u32 } - 1, Frag::Whole))] {
+                let mut ep = EpCfg::new(ver, Role::Server);
+                ep.client_keepalive = k;
+                ep.hs_keepalive = over;
+                ep.handler_auto = false;
+                ep.ready_gate = true;
+                let (_, t_impl) = ka(&ep);
+                let alphabet = if steady.is_some() { vec![StopTraffic, Hold, Unhold, Busy, Done] } else { vec![Pkt, Part(3), Rest, Hold, Unhold, Busy, Done] };
+                v.push(TmCfg { ep, kind: Kind::KeepAlive, steady, horizon: late(t_impl.min(4)) + 6, alphabet, max_events: max_events + 1, combined: false, prefill_busy: 0 });
+            }
+        }
         // handlers completing while the peer is silent: three publishes at time 0, their handlers complete at
         // explorer-chosen times; server-side activity must not postpone the keep-alive deadline
         for (k, over) in [(2u16, Some(1u16)), (2, None)] {
@@ -715,7 +753,7 @@ pub fn run(tier: Tier) -> i32 {
     for (i, c) in cfgs.iter().enumerate() {
         // fragment placements need more events than the other families
         let mut e = ecfg.clone();
-        if matches!(c.kind, Kind::ReadRate | Kind::Connect) {
+        if matches!(c.kind, Kind::ReadRate | Kind::Connect) || c.ep.ready_gate {
             e.max_dev += 1;
         }
         ck.explore::<Tm>("timers", i, c, &e);
